@@ -154,12 +154,27 @@ impl SwiftField for Field61 {
         let customer_reference;
         let mut supplementary_details = None;
 
+        // Without a bank reference the supplementary details may follow on the next line
+        let customer_ref_part = if after_customer_ref.is_none()
+            && let Some((first_line, next_line)) = customer_ref_part.split_once('\n')
+        {
+            if !next_line.is_empty() {
+                supplementary_details = Some(next_line.to_string());
+            }
+            first_line.to_string()
+        } else {
+            customer_ref_part
+        };
+
         if customer_ref_part.len() <= 16 {
             customer_reference = customer_ref_part;
         } else {
             customer_reference = customer_ref_part[..16].to_string();
             // If customer ref part is > 16 chars and no //, rest is supplementary details
-            if after_customer_ref.is_none() && customer_ref_part.len() > 16 {
+            if after_customer_ref.is_none()
+                && customer_ref_part.len() > 16
+                && supplementary_details.is_none()
+            {
                 supplementary_details = Some(customer_ref_part[16..].to_string());
             }
         }
